@@ -504,6 +504,9 @@ class ArmiObject(metaclass=CompositeModelType):
         """
         self.p = other.p.__class__()
         for p, val in other.p.items():
+            if p == "serialNum":
+                # serial numbers identify objects: this object gets its own, not the other's
+                continue
             self.p[p] = val
 
     def updateParamsFrom(self, new):
@@ -516,6 +519,9 @@ class ArmiObject(metaclass=CompositeModelType):
             The object to copy params from
         """
         for paramName, val in new.p.items():
+            if paramName == "serialNum":
+                # serial numbers identify objects: this object keeps its own
+                continue
             self.p[paramName] = val
 
     def iterChildren(
